@@ -203,6 +203,23 @@ def build() -> Check:
           vals and all(v in ("config.serdes", "None") for v in vals) and "config.serdes" in vals,
           f"Callback.serdes is bound to {sorted(vals)}")
 
+    # a context whose oversized result was replaced by a summary delivered its real result to the first run; on replay the recorded payload
+    # (summary / nothing) may only be handed to user code once the path has established that the context is NOT in ReplayChildren mode
+    child_ci = pm.executors.get("ChildOperationExecutor")
+    if child_ci is not None:
+        badc = []
+        n_c = 0
+        for t in pm.run_cell(child_ci, "SUCCEEDED", faults=False):
+            if user_events(t, "user") or t.outcome != "return":
+                continue
+            n_c += 1
+            not_rc = any(("replay_children" in k and v is False) or (k.endswith("context_details is None") and v is True) for k, v in t.pc)
+            if not not_rc:
+                badc.append((f"a SUCCEEDED context returns {t.value.key()} from the record without having looked at the ReplayChildren flag: the first run "
+                             "delivered the real (oversized) result, the replay delivers the summary / None", t))
+        ck.floor("succeeded_context_record_paths", n_c, 1)
+        ck.ob("R2.summarised-context-is-rebuilt", cls_construct(child_ci), not badc, (badc[0][0]) if badc else f"{n_c} path(s)")
+
     # R4 (codec): the first run raises from the in-memory error object, every replay from the one decoded off the wire. The two agree on every
     # field only if the error codec drops nothing that is set - a truthiness filter turns '' (the message of `raise ValueError()`) into None
     from sa.tables import reader_table, self_root, writer_table
